@@ -119,6 +119,16 @@ def check_bench(case):
             try:
                 c.into_bench()
             except core.CirboError:
+                # the circuit gets an input after all and is converted then: an ordinary conversion, whatever was tried before
+                late = '__late_input__'
+                c.add_inputs([late])
+                c.into_bench()
+                left = {g.gate_type.name for g in c.gates.values()} - ALLOWED
+                if left:
+                    raise Violation('non_bench_types_remain', f'after a declined and a repeated conversion: {sorted(left)}')
+                pr = wellformed.problems(c)
+                if pr:
+                    raise Violation('wellformed', 'conversion repeated after a declined one (an input was added in between): ' + '; '.join(pr[:3]))
                 return {'nt': False, 'cls': {'zero_inputs_constant_rejected'}}
             raise Violation('zero_input_constant', 'conversion of a constant without any input did not raise')
         ret = None
